@@ -100,27 +100,45 @@ def _test(node, arg):
     raise Untranslatable(f'farm.Hand._translate: test outside the subset: {ast.unparse(node)}')
 
 
-def _sched_calls(stmts, where):
+_FIND = 'dawgie.pl.schedule.find(msg.jobid)'
+_INC = "msg.incarnation if msg.incarnation else '__all__'"
+_STATEX = 'Hand._translate(msg.success)'
+_ARGS = {'complete': [_FIND, 'msg.runid', _INC, 'msg.timing', _STATEX],
+         'update': ['msg.values', _FIND, 'msg.runid'], 'purge': [_FIND, _INC]}
+
+
+def _resolve(node, env):
+    """source text of an expression with local names replaced by what they were assigned"""
+    class Sub(ast.NodeTransformer):
+        def visit_Name(self, n):   # pylint: disable=invalid-name
+            return env.get(n.id, n)
+    import copy
+    return ast.unparse(Sub().visit(copy.deepcopy(node)))
+
+
+def _sched_calls(stmts, where, env):
     """the schedule.complete/update/purge calls among stmts, in order; stmts may only be expression statements,
-    (aug)assignments and `pass`"""
+    (aug)assignments and `pass`; simple local assignments are recorded in env"""
     acts = []
     for st in stmts:
-        if isinstance(st, (ast.Pass, ast.Assign, ast.AugAssign)):
+        if isinstance(st, (ast.Pass, ast.Assign, ast.AugAssign, ast.AnnAssign)):
             if any(isinstance(n, ast.Call) and 'schedule.' in ast.unparse(n.func)
                    and ast.unparse(n.func).split('.')[-1] in ('complete', 'update', 'purge') for n in ast.walk(st)):
                 raise Untranslatable(f'farm.Hand._res: scheduler call inside an assignment ({where})')
+            if isinstance(st, ast.Assign) and len(st.targets) == 1 and isinstance(st.targets[0], ast.Name):
+                env[st.targets[0].id] = ast.parse(_resolve(st.value, env), mode='eval').body
             continue
         if isinstance(st, ast.Expr) and isinstance(st.value, ast.Call):
             fn = ast.unparse(st.value.func)
             name = fn.split('.')[-1]
             if fn.endswith('schedule.' + name) and name in ('complete', 'update', 'purge'):
-                args = [ast.unparse(a) for a in st.value.args]
-                want = {'complete': ['job', 'msg.runid', 'inc', 'msg.timing', 'state'],
-                        'update': ['msg.values', 'job', 'msg.runid'], 'purge': ['job', 'inc']}[name]
-                if args != want or st.value.keywords:
+                args = [_resolve(a, env) for a in st.value.args]
+                if args != _ARGS[name] or st.value.keywords:
                     raise Untranslatable(f'farm.Hand._res: {name}({", ".join(args)}) -- arguments outside the subset')
                 acts.append('.' + name)
             continue   # logging and the like
+        if isinstance(st, ast.Expr) and isinstance(st.value, ast.Constant):
+            continue
         raise Untranslatable(f'farm.Hand._res: statement outside the subset ({where}): {ast.unparse(st)[:60]}')
     return acts
 
@@ -146,37 +164,35 @@ def gen_hand(repo):
     if len(tries) != 1:
         raise Untranslatable(f'farm.Hand._res: {len(tries)} try statements (expected one)')
     tr = tries[0]
+    env = {}
+    for st in fn.body:     # simple assignments before the try (e.g. the incarnation computed once)
+        if st is tr:
+            break
+        if isinstance(st, ast.Assign) and len(st.targets) == 1 and isinstance(st.targets[0], ast.Name):
+            env[st.targets[0].id] = ast.parse(_resolve(st.value, env), mode='eval').body
     for h in tr.handlers:
         if h.type is None or ast.unparse(h.type) != 'IndexError':
             raise Untranslatable('farm.Hand._res: a handler other than `except IndexError`')
-        _ = _sched_calls([s for s in h.body if not isinstance(s, ast.Return)], 'handler')
-        if _:
+        if _sched_calls([s for s in h.body if not isinstance(s, ast.Return)], 'handler', dict(env)):
             raise Untranslatable('farm.Hand._res: scheduler calls inside the IndexError handler')
     if tr.finalbody or tr.orelse:
         raise Untranslatable('farm.Hand._res: finally/else on the try')
-    want = {'job': 'dawgie.pl.schedule.find(msg.jobid)', 'inc': "msg.incarnation if msg.incarnation else '__all__'",
-            'state': 'Hand._translate(msg.success)'}
-    seen, pre, branch = {}, [], None
+    pre, branch = [], None
     for st in tr.body:
-        if isinstance(st, ast.Assign) and len(st.targets) == 1 and getattr(st.targets[0], 'id', '') in want:
-            if branch is not None or pre:
-                raise Untranslatable('farm.Hand._res: job/inc/state assigned after the first scheduler call')
-            seen[st.targets[0].id] = ast.unparse(st.value)
-        elif isinstance(st, ast.If):
+        if isinstance(st, ast.If):
             if branch is not None:
                 raise Untranslatable('farm.Hand._res: more than one branch on the state')
             t = st.test
-            if not (isinstance(t, ast.Compare) and getattr(t.left, 'id', '') == 'state' and len(t.ops) == 1
+            if not (isinstance(t, ast.Compare) and _resolve(t.left, env) == _STATEX and len(t.ops) == 1
                     and isinstance(t.ops[0], ast.Eq)):
                 raise Untranslatable(f'farm.Hand._res: branch test outside the subset: {ast.unparse(t)}')
-            branch = (_state(t.comparators[0], '_res'), _sched_calls(st.body, 'then'), _sched_calls(st.orelse, 'else'))
+            branch = (_state(t.comparators[0], '_res'), _sched_calls(st.body, 'then', dict(env)),
+                      _sched_calls(st.orelse, 'else', dict(env)))
         else:
-            acts = _sched_calls([st], 'try body')
+            acts = _sched_calls([st], 'try body', env)
             if acts and branch is not None:
                 raise Untranslatable('farm.Hand._res: unconditional scheduler call after the branch')
             pre += acts
-    if seen != want:
-        raise Untranslatable(f'farm.Hand._res: job/inc/state are not computed as expected: {seen}')
     if branch is None:
         branch = ('.success', [], [])
     lst = lambda xs: '[' + ', '.join(xs) + ']'   # noqa: E731
